@@ -334,6 +334,13 @@ func (fr *frame) scanCallMods(m *loopMods, info *types.Info, call *ast.CallExpr,
 					return
 				case "(*sync.Mutex).Unlock", "(*sync.RWMutex).Unlock", "(*sync.RWMutex).RUnlock":
 					return
+				case "(*sync.Once).Do":
+					if s2, ok := unparen(f.X).(*ast.SelectorExpr); ok {
+						if p, _, _ := fieldPrefix(info, s2); p != "" {
+							m.classes[p+"#once"] = SBool
+						}
+					}
+					return
 				}
 			}
 		} else {
@@ -693,7 +700,7 @@ func (fr *frame) loopCore(st *State, node ast.Node, label string, scanNodes []as
 			if _, ok := m.globals[c]; ok {
 				continue
 			}
-			if _, ok := head.heap[c]; !ok && t.Kind == KVar {
+			if _, ok := head.heap[c]; !ok && t == initialHeapTerm(c, t.Sort) {
 				continue // first read only created the initial variable
 			}
 			panic(unsupported("loop body writes heap class " + c + " that the modification scan did not find (engine limitation)"))
